@@ -23,6 +23,9 @@ fn main() {
     let nkeys = args.u64("nkeys", 64) as usize;
     let mut tw = TraceWriter::create(&out);
     let mut scripts = args.map.get("scripts-out").map(|p| TraceWriter::create(p));
+    // every step is journalled (and flushed) before it is executed, so that a process abort inside
+    // redb (a panic while panicking cannot be caught) still leaves a replayable script behind
+    let mut journal = args.map.get("journal").map(|p| std::io::BufWriter::new(std::fs::File::create(p).unwrap()));
     let mut stats = json!({"runs": 0, "events": 0, "panics": 0, "steps": 0});
     let mut kinds: std::collections::BTreeMap<String, u64> = Default::default();
 
@@ -60,9 +63,19 @@ fn main() {
         let mut ex = Exec::new(cfg.clone());
         let mut g = Gen::new(Profile::by_name(&profile), &ex.cx);
         tw.write(&json!({"e": "reset", "run": run, "cfg": cfg.to_json()}));
+        if let Some(j) = journal.as_mut() {
+            use std::io::Write;
+            writeln!(j, "{}", json!({"run": run, "cfg": cfg.to_json()})).unwrap();
+            j.flush().unwrap();
+        }
         let mut script: Vec<J> = vec![];
         let mut i = 0u64;
         let mut run_step = |ex: &mut Exec, g: &mut Gen, step: J, tw: &mut TraceWriter, i: &mut u64, script: &mut Vec<J>| {
+            if let Some(j) = journal.as_mut() {
+                use std::io::Write;
+                writeln!(j, "{step}").unwrap();
+                j.flush().unwrap();
+            }
             let evs = ex.step(&step);
             g.observe(&evs);
             for mut ev in evs {
